@@ -582,6 +582,9 @@ pub fn huge_full_probes() -> Vec<String> {
     must("push_back on full", false, &mut || if b.push_back(()).is_some() && b.len() == M { Ok(()) } else { Err("wrong".into()) });
     must("push_front on full", false, &mut || if b.push_front(()).is_some() && b.len() == M { Ok(()) } else { Err("wrong".into()) });
     must("try_push_back on full", false, &mut || if b.try_push_back(()).is_err() && b.len() == M { Ok(()) } else { Err("wrong".into()) });
+    must("extend_from_slice(1) on full", false, &mut || { b.extend_from_slice(&[()]); if b.len() == M && b.is_full() { Ok(()) } else { Err(format!("len {}", b.len())) } });
+    must("extend(2) on full", false, &mut || { b.extend([(), ()]); if b.len() == M && b.is_full() { Ok(()) } else { Err(format!("len {}", b.len())) } });
+    must("try_push_front on full", false, &mut || if b.try_push_front(()).is_err() && b.len() == M { Ok(()) } else { Err("wrong".into()) });
     must("pop_back / push_back", false, &mut || if b.pop_back().is_some() && b.len() == M - 1 && !b.is_full() && b.push_back(()).is_none() && b.is_full() { Ok(()) } else { Err("wrong".into()) });
     must("pop_front / try_push_front", false, &mut || if b.pop_front().is_some() && b.len() == M - 1 && b.try_push_front(()).is_ok() && b.is_full() { Ok(()) } else { Err("wrong".into()) });
     must("remove(usize::MAX-1) / remove(usize::MAX)", false, &mut || if b.remove(M).is_none() && b.remove(M - 1).is_some() && b.len() == M - 1 && b.push_back(()).is_none() { Ok(()) } else { Err("wrong".into()) });
